@@ -8,7 +8,12 @@ package prng
 import (
 	"crypto/sha256"
 	"encoding/binary"
+	"sync/atomic"
 )
+
+// Heartbeat is incremented whenever a simulation has reached another quiescent point. The worker's watchdog tells a
+// run that is merely slow (it keeps reaching quiescent points) from one that is wedged (it never does again).
+var Heartbeat atomic.Int64
 
 type Rand struct {
 	s uint64
